@@ -166,6 +166,37 @@ pub fn run_c06(o: &crate::Opts) {
             vec![0xFD, 0xFF, 0x10, 0x21],
         ];
     }
+    // object files at and beyond the size limits of the loader (first instruction HALT so that an
+    // accepted one stops at once): for origin o the largest loadable file has 2·(0x10000 − o) bytes;
+    // one byte / one word more, the sizes around 0x20000 bytes (0x10000 words: where a 16-bit length
+    // wraps) and far beyond must all be rejected with an error exit. Spread over the shards.
+    {
+        let mut huge: Vec<Vec<u8>> = Vec::new();
+        for orig in [0u16, 0x3000] {
+            let max = 2 * (0x10000usize - orig as usize);
+            for size in [max - 2, max, max + 1, max + 2, 0x20000, 0x20001, 0x20002, 0x20004, 0x30000, 0x40002] {
+                let mut b = vec![0u8; size];
+                b[..2].copy_from_slice(&orig.to_be_bytes());
+                b[2..4].copy_from_slice(&0xF025u16.to_be_bytes());
+                huge.push(b);
+            }
+        }
+        for (i, b) in huge.into_iter().enumerate() {
+            if i % o.nshards == o.shard {
+                corpus.push(b);
+            }
+        }
+    }
+    // programs that exactly fill memory up to the implicit HALT at 0xFFFF, one word less, one more
+    let mut directed: Vec<Prog> = Vec::new();
+    for (i, n) in [0xCFFEusize, 0xCFFF, 0xD000].into_iter().enumerate() {
+        if (i + 3) % o.nshards == o.shard {
+            // lea r0 #2 / puts / halt / "fits" / zeros
+            let mut words: Vec<u16> = vec![0xE002, 0xF022, 0xF025, 0x66, 0x69, 0x74, 0x73, 0];
+            words.resize(n, 0);
+            directed.push(Prog { orig: 0x3000, words, inp: vec![], stack: false, minimal: true, kind: "fills-memory" });
+        }
+    }
     for k in 0..per + corpus.len() as u64 {
         if (k as usize) < corpus.len() || k % 3 == 2 {
             // arbitrary bytes offered as .lc3 / .obj
@@ -239,11 +270,15 @@ pub fn run_c06(o: &crate::Opts) {
             let _ = std::fs::remove_file(dir.join(&lc3));
             continue;
         }
-        let mut p = gen_structured(&mut rng);
+        let is_directed = !directed.is_empty();
+        let mut p = match directed.pop() {
+            Some(d) => d,
+            None => gen_structured(&mut rng),
+        };
         if p.kind == "rti" {
             continue;
         }
-        if rng.chance(1, 4) {
+        if rng.chance(1, 4) && !is_directed {
             p.orig = 0x3000;
         }
         let with_orig = !(p.orig == 0x3000 && rng.chance(1, 2));
@@ -682,7 +717,15 @@ pub fn run_c08(o: &crate::Opts) {
                 s.push_str("add r0 r0 #1\n");
             }
         }
-        s.push_str("halt\n.blkw #1100\nfar .fill x7\n");
+        // the reference is out of range either by far, or barely (just beyond the form's own field:
+        // 9 bits; 10 for CALL; 11 for JSR)
+        let gap = if rng.chance(1, 2) {
+            1100
+        } else {
+            let reach = if form.starts_with("call") { 512 } else if form.starts_with("jsr") { 1024 } else { 256 };
+            reach + rng.below(24)
+        };
+        s.push_str(&format!("halt\n.blkw #{}\nfar .fill x7\n", gap));
         let force_stack = form.starts_with("call") && k < n;
         let src = if i % 5 == 4 { gen_src(&mut rng).src } else { s };
         let dest = match rng.below(5) {
